@@ -1,0 +1,13 @@
+//go:build verif
+
+package keeper
+
+// Contracts for the deductive verifier in /verif (govc). Comment-only; compiled only with -tags verif.
+
+//@ contract (*Keeper).Route
+//@   let ks = k.Router.Keys()
+//@   invariant #1 none_before: forall j int :: 0 <= j && j <= rangeindex && j < len(ks) ==> !contains(module, ks[j])
+//@   invariant #1 idx: 0 - 1 <= rangeindex
+//@   ensures exact: inmap(k.Router.routes, module) ==> result1 && result0 == k.Router.routes[module]
+//@   ensures smallest_contained: !inmap(k.Router.routes, module) && result1 ==> exists i int :: 0 <= i && i < len(ks) && contains(module, ks[i]) && result0 == k.Router.routes[ks[i]] && forall j int :: 0 <= j && j < i ==> !contains(module, ks[j])
+//@   ensures none: !inmap(k.Router.routes, module) && !result1 ==> forall i int :: 0 <= i && i < len(ks) ==> !contains(module, ks[i])
